@@ -51,12 +51,13 @@ def dfltProg : Nat → Nat → Nat → Prog Nat Int
     | 7 => sub (sibling mid 1) 1 fun v => sub (sibling mid 2) 2 fun w => .done (some (leaf + v + w))
     | _ => .done (some leaf)
 
-/-- answer function `f`: `f % 10 = 9` panics (user code), `f % 10 = 8` calls the next sibling with
+/-- answer function `f`: `f % 10 = 9` panics (user code), `f % 10 = 7` lends out a clone of the mock (`u.make_ref(u.clone())`), `f % 10 = 8` calls the next sibling with
     arg 0 and adds, otherwise returns `-(f*10 + a)` -/
 def answerProg (f : Nat) (m : MethodInfo) (a : Nat) : Prog Nat Int :=
   let leaf : Int := - ((f : Int) * 10 + (a : Int))
   .log (.answer f a) <|
   if f % 10 == 9 then .done none
+  else if f % 10 == 7 then .park (.done (some leaf))
   else if f % 10 == 8 then .call (methodInfo (sibling m.id 1)) 0 fun v => .done (some (leaf + v))
   else .done (some leaf)
 
